@@ -89,6 +89,98 @@ fn gen_batch(runner: &mut TestRunner, size: usize, depth: u32) -> Batch {
     Batch { ctx, sources, trees }
 }
 
+/// A rendezvous owned by the harness: a user function blocks until all `parties` threads of the
+/// current round are inside the call (or a timeout passes), so that the maximal number of
+/// function calls is in flight at the same instant. This is the one place where the harness owns
+/// the schedule.
+struct Rendezvous {
+    arrivals: std::sync::Mutex<u64>,
+    cv: std::sync::Condvar,
+    parties: AtomicU64,
+    timeouts: AtomicU64,
+}
+
+impl Rendezvous {
+    fn arrive_and_wait(&self) {
+        let parties = self.parties.load(Ordering::SeqCst).max(1);
+        let mut g = self.arrivals.lock().unwrap();
+        let mine = *g;
+        *g += 1;
+        let goal = (mine / parties + 1) * parties;
+        if *g >= goal {
+            self.cv.notify_all();
+            return;
+        }
+        let deadline = std::time::Instant::now() + std::time::Duration::from_millis(500);
+        while *g < goal {
+            let now = std::time::Instant::now();
+            if now >= deadline {
+                self.timeouts.fetch_add(1, Ordering::Relaxed);
+                break;
+            }
+            let (ng, _) = self.cv.wait_timeout(g, deadline - now).unwrap();
+            g = ng;
+        }
+    }
+}
+
+const SYNC_SOURCES: [&str; 4] = ["sync(1) + len(\"ab\")", "f(sync(2))", "sync(a) == a", "str::from(sync(2.5))"];
+
+/// All `threads` threads evaluate the same function-calling programs at the same instant.
+fn check_rendezvous(rep: &Report, batch_ctx: &Ctx, threads: usize, rounds: usize, l: &mut Local) {
+    use evalexpr::ContextWithMutableFunctions;
+    let rv = Arc::new(Rendezvous { arrivals: std::sync::Mutex::new(0), cv: std::sync::Condvar::new(), parties: AtomicU64::new(1), timeouts: AtomicU64::new(0) });
+    let mut ctx: HCtx = build_hashmap_nolog(batch_ctx);
+    {
+        let rv = rv.clone();
+        ctx.set_function(
+            "sync".into(),
+            Function::new(move |v: &Val| {
+                rv.arrive_and_wait();
+                Ok(v.clone())
+            }),
+        )
+        .expect("set_function");
+    }
+    let trees: Vec<Tree> = SYNC_SOURCES.iter().map(|s| evalexpr::build_operator_tree::<DefaultNumericTypes>(s).expect("sync source builds")).collect();
+    // sequential reference (one party: no waiting)
+    let seq: Vec<Res> = trees.iter().map(|t| t.eval_with_context(&ctx).map(|v| to_rv(&v))).collect();
+    *rv.arrivals.lock().unwrap() = 0;
+    rv.parties.store(threads as u64, Ordering::SeqCst);
+    let barrier = Barrier::new(threads);
+    let evals = AtomicU64::new(0);
+    std::thread::scope(|s| {
+        for _ in 0..threads {
+            let (trees, ctx, seq, barrier, evals) = (&trees, &ctx, &seq, &barrier, &evals);
+            s.spawn(move || {
+                for _ in 0..rounds {
+                    for (j, t) in trees.iter().enumerate() {
+                        barrier.wait();
+                        let r = t.eval_with_context(ctx).map(|v| to_rv(&v));
+                        evals.fetch_add(1, Ordering::Relaxed);
+                        if !res_same(&r, &seq[j]) {
+                            rep.fail(
+                                "rendezvous",
+                                "C15/concurrent result differs from the sequential result (all threads inside a user function at once)",
+                                json!({"kind": "rendezvous", "src": SYNC_SOURCES[j], "ctx": common::ctx_to_json(batch_ctx), "threads": threads}),
+                                res_text(&seq[j]),
+                                res_text(&r),
+                                threads,
+                            );
+                        }
+                    }
+                }
+            });
+        }
+    });
+    l.evaluations += evals.load(Ordering::Relaxed);
+    l.label_n("rendezvous timeouts (not failures)", rv.timeouts.load(Ordering::Relaxed));
+    l.label("rendezvous batch");
+    for s in SYNC_SOURCES {
+        l.nontrivial_key(&format!("rv{}\u{1}{}\u{1}{}", threads, s, batch_ctx.describe()));
+    }
+}
+
 fn reads_shared(src: &str) -> bool {
     let toks = tok::lex(src).map(|o| o.toks).unwrap_or_default();
     toks.iter().any(|t| matches!(t, tok::Tok::Ident(_)))
@@ -212,7 +304,9 @@ fn run(rep: &Report) {
          Dynamic half: batches of generated read-only programs (no assignment; variables, user functions, builtins, \
          all value types) with one shared context, evaluated K times from T in {2,4,8,16} threads released by a \
          barrier with staggered offsets (scoped borrows and Arc), results / cloned trees / operators moved back \
-         through a channel; oracle: the sequential result computed beforehand, bit-exact. Non-trivial: distinct \
+         through a channel; plus a rendezvous phase in which a harness-owned user function holds 16 / 48 / 64 threads \
+         inside a function call at the same instant (the one point where the harness owns the schedule); oracle: the \
+         sequential result computed beforehand, bit-exact. Non-trivial: distinct \
          (program, context) that reads a shared variable or calls a shared function, run on >= 4 threads.",
     );
     rep.assume("the harness does not own the scheduler: interleavings are sampled, not enumerated (DESIGN §4 C15, honest limit)");
@@ -239,6 +333,10 @@ fn run(rep: &Report) {
         for threads in [2usize, 4, 8, 16] {
             check_batch(rep, &batch, threads, k, &mut l);
         }
+        // maximal overlap: every thread inside a user-function call at the same instant
+        for threads in [16usize, 48, 64] {
+            check_rendezvous(rep, &batch.ctx, threads, rep.tier.pick(2, 10), &mut l);
+        }
     }
     rep.merge(l);
 }
@@ -247,6 +345,14 @@ fn replay(case: &J, rep: &Report) {
     // re-run the saved program on 16 threads many times
     let src = case["src"].as_str().unwrap_or("1");
     let ctx = common::ctx_from_json(&case["ctx"]).unwrap_or_else(|| Ctx::hashmap());
+    if case["kind"].as_str() == Some("rendezvous") {
+        let mut l = Local::default();
+        for _ in 0..5 {
+            check_rendezvous(rep, &ctx, 64, 5, &mut l);
+        }
+        rep.merge(l);
+        return;
+    }
     if let Ok(t) = evalexpr::build_operator_tree::<DefaultNumericTypes>(src) {
         let batch = Batch { ctx, sources: vec![src.to_string(); 8], trees: vec![t; 8] };
         let mut l = Local::default();
